@@ -162,6 +162,7 @@ class Interp:
         self.concrete = concrete
         self.modules = {}
         self.obligations = []
+        self.narrow = None          # id(wrapper) -> wrapper of single-precision values (off unless a harness sets {})
         self.overrides = {}        # function name -> python callable(interp, state, args, kwargs)
         self.facts = None
         self.fact_list = []
@@ -392,8 +393,39 @@ class Interp:
         v = st.heap[a.bufid][pos]
         if isinstance(v, Partial):
             self.oblige(st, "uninit-read", v.defined, f"read of {v.what}")
-            return v.value
+            v = v.value
+        if self.narrow is not None and a.dtype == "float32" and is_sym(v):
+            self.narrow[id(v)] = v
         return v
+
+    # ---- single-precision values (DESIGN 4.2 "narrow arithmetic"): a value read from a float32 array stays single precision
+    # until it is cast (float64(x)) or meets a wider operand; an operation between two such values is carried out in single
+    # precision by Numba/NumPy.  Tags are kept per Python wrapper object, so the cast returns a fresh wrapper of the same term.
+    def is_narrow(self, v):
+        return self.narrow is not None and id(v) in self.narrow
+
+    def widen(self, v):
+        if self.is_narrow(v) and isinstance(v, z3.ExprRef):
+            return type(v)(v.ast, v.ctx)
+        return v
+
+    def narrow_op(self, st, name, a, b, res):
+        """Obligation for a single-precision operation: the exact result is representable (sufficient: an integer of at
+        most 24 bits when both operands are integer valued; otherwise the claim is False, i.e. reaching it is enough)."""
+        lim = 1 << 24
+        claim = False
+        try:
+            def intlike(v):
+                return V.is_int_valued(v) or (is_sym(v) and z3.is_app_of(v, z3.Z3_OP_TO_REAL))
+            if intlike(a) and intlike(b) and is_sym(res):
+                claim = z_and(self.A.cmp("<=", res, lim), self.A.cmp(">=", res, -lim))
+        except Exception:  # noqa
+            claim = False
+        self.oblige(st, "narrow-arithmetic", claim, f"float32 {name} of two float32 values")
+        if is_sym(res) and isinstance(res, z3.ExprRef):
+            res = type(res)(res.ast, res.ctx)
+            self.narrow[id(res)] = res
+        return res
 
     def arr_values(self, st, a):
         if isinstance(a, CArr):
@@ -1349,6 +1381,9 @@ class Interp:
             return self.ite_any(b.cond, self.scalar_binop(st, name, a, b.a), self.scalar_binop(st, name, a, b.b))
         if self.concrete:
             return self.lib.concrete_binop(name, a, b)
+        if self.narrow is not None and name in ("Add", "Sub", "Mult") and self.is_narrow(a) and self.is_narrow(b):
+            res = A.add(a, b) if name == "Add" else A.sub(a, b) if name == "Sub" else A.mul(a, b)
+            return self.narrow_op(st, name, a, b, res)
         if name == "Add":
             return A.add(a, b)
         if name == "Sub":
